@@ -487,6 +487,12 @@ Section Engine.
     end.
 End Engine.
 
+(* api/router/patrouter.go ServeHTTP :42-66: one search tree per method, looked up with r.Method exactly
+   (HEAD is not served by GET's tree); a path that exists under other methods only is answered 405 by the
+   router itself, no route chain is entered. registered = the methods the group's route was added with. *)
+Definition route_dispatch (registered : list bytes) (r : request) (gate : option sout) : option sout :=
+  if existsb (bytes_eqb (r_method r)) registered then gate else Some (mks 405 false SigNone false).
+
 (* ------------------------------------------------------------------------------------------ *)
 (* (RPC) auth.go                                                                               *)
 
@@ -551,3 +557,10 @@ Definition codes_acceptable (code : Z) : bool := negb (existsb (Z.eqb code) unac
 (* number of answers of a history that the method's breaker counts as failures *)
 Definition breaker_failures (codes : list Z) : nat :=
   List.length (filter (fun c => negb (codes_acceptable c)) codes).
+
+(* rpc/server.go NewServer :33-70 + setupInterceptors :111-133: the authorize interceptors are added iff
+   ServerConfig.Auth, and the Authenticator is built with strict = ServerConfig.StrictControl on the store
+   named by ServerConfig.Redis *)
+Definition server_config_gate (auth strict_control : bool) (cache : list (N * N)) (store : N -> store_res) (md : rpc_md)
+  : list (N * N) * Z :=
+  if auth then authenticate strict_control cache store md else (cache, rpc_ok).
